@@ -120,7 +120,7 @@ def build(desc, detour=False, extra_node="zz9", relabel=None):
     h = cls(weighted=desc["weighted"])
     nodes = list(desc["nodes"])
     edges = list(enumerate(desc["edges"]))
-    if detour:
+    if detour is True:
         nodes = nodes[::-1]
         edges = edges[::-1]
         xn = extra_node if not nodes or isinstance(nodes[0], str) else 10 ** 6
@@ -150,17 +150,17 @@ def build(desc, detour=False, extra_node="zz9", relabel=None):
             kw["metadata"] = dict(md)
         if k == "H":
             ee = tuple(R(x) for x in e)
-            h.add_edge(ee[::-1] if detour else ee, **kw)
+            h.add_edge(ee[::-1] if detour is True else ee, **kw)
         elif k == "D":
             s, t = tuple(R(x) for x in e[0]), tuple(R(x) for x in e[1])
-            h.add_edge((s[::-1], t[::-1]) if detour else (s, t), **kw)
+            h.add_edge((s[::-1], t[::-1]) if detour is True else (s, t), **kw)
         elif k == "T":
             ee = tuple(R(x) for x in e[1])
-            h.add_edge(ee[::-1] if detour else ee, e[0], **kw)
+            h.add_edge(ee[::-1] if detour is True else ee, e[0], **kw)
         else:
             ee = tuple(R(x) for x in e[0])
-            h.add_edge(ee[::-1] if detour else ee, e[1], **kw)
-    if detour:
+            h.add_edge(ee[::-1] if detour is True else ee, e[1], **kw)
+    if detour is True:
         h.remove_node(xn)  # drops the extra hyperedge with it
         if not desc["weighted"] and desc["edges"]:
             # re-insert the first record, listed in the original order (idempotent for unweighted containers);
@@ -168,6 +168,35 @@ def build(desc, detour=False, extra_node="zz9", relabel=None):
             e = desc["edges"][0]
             md = desc["emd"].get(e)
             kw = {"metadata": dict(md)} if md else {}
+            if k == "H":
+                h.add_edge(tuple(R(x) for x in e), **kw)
+            elif k == "D":
+                h.add_edge((tuple(R(x) for x in e[0]), tuple(R(x) for x in e[1])), **kw)
+            elif k == "T":
+                h.add_edge(tuple(R(x) for x in e[1]), e[0], **kw)
+            else:
+                h.add_edge(tuple(R(x) for x in e[0]), e[1], **kw)
+    if detour == 2 and len(desc["edges"]) >= 2:
+        # churn: remove the first and the last record, then insert both again (with weight and metadata):
+        # internal ids are handed out again after removals
+        picks = [0, len(desc["edges"]) - 1]
+        for i in picks:
+            e = desc["edges"][i]
+            if k == "H":
+                h.remove_edge(tuple(R(x) for x in e))
+            elif k == "D":
+                h.remove_edge((tuple(R(x) for x in e[0]), tuple(R(x) for x in e[1])))
+            elif k == "T":
+                h.remove_edge(tuple(R(x) for x in e[1]), e[0])
+            else:
+                h.remove_edge((tuple(R(x) for x in e[0]), e[1]))
+        for i in picks:
+            e = desc["edges"][i]
+            kw = {}
+            if desc["weighted"]:
+                kw["weight"] = desc["weights"][i]
+            if desc["emd"].get(e):
+                kw["metadata"] = dict(desc["emd"][e])
             if k == "H":
                 h.add_edge(tuple(R(x) for x in e), **kw)
             elif k == "D":
